@@ -241,6 +241,7 @@ func (l *memoryBlockList) Allocate(size int, alignment uint, createInfo *Allocat
 	}
 
 	allocIndex := 0
+	firstNewBlockId := -1
 
 	defer func() {
 		if err != nil {
@@ -254,11 +255,17 @@ func (l *memoryBlockList) Allocate(size int, alignment uint, createInfo *Allocat
 				// The caller's object is unallocated again and can be reused
 				allocations[allocIndex].memory = nil
 			}
+
+			if firstNewBlockId >= 0 {
+				l.releaseEmptyBlocksCreatedSince(firstNewBlockId)
+			}
 		}
 	}()
 
 	l.mutex.Lock()
 	defer l.mutex.Unlock()
+
+	firstNewBlockId = l.nextBlockId
 
 	for allocIndex = 0; allocIndex < len(allocations); allocIndex++ {
 		res, err = l.allocPage(size, alignment, createInfo, suballocType, &allocations[allocIndex])
@@ -268,6 +275,27 @@ func (l *memoryBlockList) Allocate(size int, alignment uint, createInfo *Allocat
 	}
 
 	return res, err
+}
+
+// releaseEmptyBlocksCreatedSince gives back blocks that a failed multi-allocation created for
+// elements it has since released again, so that the failed request leaves no device memory behind
+func (l *memoryBlockList) releaseEmptyBlocksCreatedSince(firstBlockId int) {
+	l.mutex.Lock()
+	defer l.mutex.Unlock()
+
+	for blockIndex := len(l.blocks) - 1; blockIndex >= 0 && len(l.blocks) > l.minBlockCount; blockIndex-- {
+		block := l.blocks[blockIndex]
+		if block.id < firstBlockId || !block.metadata.IsEmpty() {
+			continue
+		}
+
+		l.Remove(block)
+		destroyErr := block.Destroy()
+		if destroyErr != nil {
+			panic(fmt.Sprintf("unexpected failure when destroying a memory block created by a failed allocation: %+v", destroyErr))
+		}
+		blockPool.Put(block)
+	}
 }
 
 func (l *memoryBlockList) allocPage(size int, alignment uint, createInfo *AllocationCreateInfo, suballocationType suballocationType, outAlloc *Allocation) (common.VkResult, error) {
